@@ -335,15 +335,6 @@ func runTxnDifferential(depth int) map[string]any {
 		"distinct_results": c, "wall_s": int(time.Since(start).Seconds()), "mode": "txn (mocktikv, single region, KVStore per client)"}
 }
 
-func closeStores(ss ...*tikv.KVStore) {
-	if diffAbort.Load() {
-		return // an abandoned operation may still be using them
-	}
-	for _, s := range ss {
-		s.Close()
-	}
-}
-
 func boundV1(o rop) rop {
 	if o.Kind == "iter" && o.E == "" {
 		o.E = "d"
